@@ -219,6 +219,15 @@ def showURes (total : Nat) : URes → String × Option Val
 /-- does `Bind` (machine selection + Reset of the root machine) fail? -/
 def bindFails (ts : Obj.Types) (a : Obj.Atlas) (id : Nat) : Bool :=
   let (n, base) := peel ts 64 0 id
+  -- refused whatever the pointer depth: a transform that receives a pointer type, or a type that needs a transform itself
+  let trRefused : Bool :=
+    match upickBare ts a base with
+    | .transform _ uty =>
+      (match ts.get uty with
+       | .ptr _ => true
+       | _ => (match upickBare ts a uty with | .transform _ _ => true | _ => false))
+    | _ => false
+  if trRefused && n == 0 then true else
   if n > 0 then false else
   let mapBad (kt : Nat) : Bool :=
     match ts.get kt with
@@ -231,6 +240,46 @@ def bindFails (ts : Obj.Types) (a : Obj.Atlas) (id : Nat) : Bool :=
   | .map kt _ => mapBad kt
   | .transform _ uty => (match upickBare ts a uty with | .errThunk => true | .map kt _ => mapBad kt | _ => false)
   | _ => false
+
+/-- a transform the unmarshaller refuses, behind at least one pointer level: the pointer machine still takes a null;
+    anything else meets the refusing machine -/
+def ptrTrRefused (ts : Obj.Types) (a : Obj.Atlas) (id : Nat) : Bool :=
+  let (n, base) := peel ts 64 0 id
+  n > 0 && (match upickBare ts a base with
+    | .transform _ uty =>
+      (match ts.get uty with
+       | .ptr _ => true
+       | _ => (match upickBare ts a uty with | .transform _ _ => true | _ => false))
+    | _ => false)
+
+/-- a pointer to a type whose marshal transform yields a pointer type: refused when the machine is configured, whatever the value -/
+def ptrTrRefusedM (ts : Obj.Types) (a : Obj.Atlas) (id : Nat) : Bool :=
+  let (n, base) := peel ts 64 0 id
+  n > 0 && (match pickBare ts a base with
+    | .transform _ _ mty => (match ts.get mty with | .ptr _ => true | _ => false)
+    | _ => false)
+
+/-- pump the stateful marshaller `k` times and leave it there (an abandoned run) -/
+def pumpN (ts : Obj.Types) (a : Obj.Atlas) : Nat → MM.MState → MM.MState
+  | 0, s => s
+  | k+1, s =>
+    match MM.mstep ts a trLib 100000 s with
+    | .error _ => s
+    | .ok res => if res.done then res.st else pumpN ts a k res.st
+
+/-- the STATEFUL model of obj.Marshaller (slab rows, machine stack, one token per Step), started from an instance that
+    abandoned a run of the same value after three tokens.  Where machines clash in one slab row (a transform whose serial
+    type needs a transform or a pointer machine in the same row) the stateful model gets stuck; the library refuses. -/
+def runMach (ts : Obj.Types) (a : Obj.Atlas) (id : Nat) (v : Obj.Val) : MOut :=
+  if ptrTrRefusedM ts a id then ⟨[], some .err⟩ else
+  let dirty := pumpN ts a 3 (MM.bind ts a trLib 100000 MM.MState.fresh id v)
+  let s := MM.bind ts a trLib 100000 dirty id v
+  let conv : MM.XFail → Fail := fun x => match x with | .stuck => .err | .f y => y
+  match s.bindErr with
+  | some x => ⟨[], some (conv x)⟩
+  | none =>
+    let r := MM.runX ts a trLib 100000 100000 s
+    ⟨r.1, r.2.map conv⟩
 
 def showMOut (o : MOut) : String :=
   showToks o.toks ++ "/" ++ (match o.fail with | none => "ok" | some .err => "err" | some .panic => "panic")
@@ -284,6 +333,13 @@ def handleObj (st : DState) (parts : List String) : Option (DState × String) :=
       match st.atlases.lookup ai with
       | some a =>
         if bindFails st.types a ti then some (st, "M=b V=-") else
+        if ptrTrRefused st.types a ti then
+          -- the pointer machine takes a null itself; any other first token meets the machine that refuses
+          (match tks with
+           | [] => some (st, "M= V=-")
+           | ⟨.null, none⟩ :: _ => some (st, "M=D V=n")
+           | _ => some (st, "M=E V=-"))
+        else
         let r := unmV st.types a trLib st.it 100000 ti (zeroVal st.types 64 ti) tks
         let (fl, v) := showURes tks.length r
         some (st, "M=" ++ fl ++ " V=" ++ (match v with | some x => showVal x | none => "-"))
@@ -556,6 +612,18 @@ def handleObj (st : DState) (parts : List String) : Option (DState × String) :=
            | none => "fail")
         else "-"
       some (st, "M=" ++ hexOrDash ws.flatten ++ "/" ++ toString left ++ "/" ++ cls ++ " W=" ++ slow)
+    | _, _ => some (st, "bad-op")
+  | ["marshalm", aid, tid, _viaPtr, val] =>
+    match parseNat aid, parseNat tid with
+    | some ai, some ti =>
+      match st.atlases.lookup ai, parseValue st.types ti val with
+      | some a, some v =>
+        let out := match _viaPtr, st.types.get ti, v with
+          | "0", .iface _, .iface none => MOut.ok [⟨.null, none⟩]
+          | "0", .iface _, .iface (some (dt, dv)) => runMach st.types a dt dv
+          | _, _, _ => runMach st.types a ti v
+        some (st, "M=" ++ showMOut out)
+      | _, _ => some (st, "bad-op")
     | _, _ => some (st, "bad-op")
   | ["marshal", aid, tid, _viaPtr, val] =>
     match parseNat aid, parseNat tid with
